@@ -24,7 +24,7 @@ const SOURCES: &[&str] = &[
     "wght_var.designspace",
     "static.designspace",
     "glyphs3/WghtVar.glyphs",
-    "glyphs3/Component.glyphs",
+    "glyphs3/NestedComponent.glyphs",
     "glyphs2/Component.glyphs",
     "glyphs3/NestedNoExportComponent.glyphs",
     "glyphs3/LibreFranklin-bracketlayer.glyphs",
@@ -47,11 +47,15 @@ const SOURCES: &[&str] = &[
     "glyphs3/WghtVar_NoExport.glyphs",
 ];
 
-const THREADS: &[usize] = &[2, 1, 4, 8, 3, 16, 5, 2];
+const THREADS: &[usize] = &[2, 4, 1, 8, 3, 16, 5, 2];
+
+/// a directed schedule: IR glyph completion messages arrive 25 ms after the counters were decremented,
+/// the GlyphOrder worker decrements its counter 60 ms after it finished executing
+const LAG_SCHEDULE: &str = "send:IrGlyph:25,post:IrGlyphOrder:60";
 
 // ------------------------------------------------------------------ child: one real build
 fn child(rest: &[String]) {
-    // rest = ["child", source, threads, jitter, tracefile]
+    // rest = ["child", source, threads, jitter, delay-spec, tracefile]
     let source = &rest[1];
     // SAFETY: single-threaded at this point
     unsafe {
@@ -61,7 +65,12 @@ fn child(rest: &[String]) {
         } else {
             std::env::remove_var("FONTC_VERIF_JITTER");
         }
-        std::env::set_var("FONTC_VERIF_TRACE", &rest[4]);
+        if rest[4] != "-" {
+            std::env::set_var("FONTC_VERIF_DELAY", &rest[4]);
+        } else {
+            std::env::remove_var("FONTC_VERIF_DELAY");
+        }
+        std::env::set_var("FONTC_VERIF_TRACE", &rest[5]);
     }
     let result = std::panic::catch_unwind(|| {
         let input = fontc::Input::new(Path::new(source)).map_err(|e| format!("{e}"))?;
@@ -357,7 +366,7 @@ fn extract(log: &str) -> Extracted {
                 "acc" => {
                     let who = match v.get(2)? {
                         L::L(w) if word(&w[0]) == "main" => match w.get(1)? {
-                            L::A(_) => S::kv("m", [S::atom("init")]),
+                            L::A(a) => S::kv("m", [S::atom(a.clone())]),
                             l => S::kv("m", [S::usize(it.id(l)?)]),
                         },
                         l => S::usize(it.id(l)?),
@@ -420,7 +429,7 @@ struct RunOut {
     log: String,
 }
 
-fn run_child(source: &Path, threads: usize, jitter: Option<u64>, tag: &str) -> RunOut {
+fn run_child(source: &Path, threads: usize, jitter: Option<u64>, delay: Option<&str>, tag: &str) -> RunOut {
     let exe = std::env::current_exe().expect("current_exe");
     let dir = PathBuf::from("/verif/build/run/C02");
     let _ = std::fs::create_dir_all(&dir);
@@ -435,6 +444,7 @@ fn run_child(source: &Path, threads: usize, jitter: Option<u64>, tag: &str) -> R
             .arg(source)
             .arg(threads.to_string())
             .arg(jitter.map(|j| j.to_string()).unwrap_or_else(|| "-".into()))
+            .arg(delay.unwrap_or("-"))
             .arg(&trace)
             .env_remove("RUST_LOG")
             .env("SOURCE_DATE_EPOCH", "1700000000")
@@ -461,23 +471,26 @@ fn case(seed: u64, i: usize) -> Vec<S> {
     let run = i / SOURCES.len();
     let mut rng = Rng::for_case(seed, "c02", i);
     let threads = THREADS[run % THREADS.len()];
-    // run 0 of every source is the undisturbed schedule; all others are jittered
-    let jitter = if run == 0 { None } else { Some(rng.next() % 1_000_000) };
+    // run 0 of every source is the undisturbed schedule, run 1 a directed one (completion messages of the IR glyph
+    // jobs lag behind their counter decrement, GlyphOrder's worker lingers after exec), all others are jittered
+    let jitter = if run <= 1 { None } else { Some(rng.next() % 1_000_000) };
+    let delay = if run == 1 { Some(LAG_SCHEDULE) } else { None };
     let source = Path::new(TESTDATA).join(src_rel);
     let mut fields = vec![
         S::k1("source", S::str(src_rel)),
         S::k1("threads", S::usize(threads)),
         S::k1("jitter", jitter.map(|j| S::int(j as i128)).unwrap_or(S::atom("none"))),
+        S::k1("delay", S::atom(if delay.is_some() { "lag" } else { "none" })),
     ];
     if !source.exists() {
         fields.push(S::k1("status", S::atom("missing")));
         return fields;
     }
-    let out = run_child(&source, threads, jitter, &format!("{i}"));
+    let out = run_child(&source, threads, jitter, delay, &format!("{i}"));
     let st: Vec<&str> = out.status.split(' ').collect();
     let ex = extract(&out.log);
     // reference run (other thread count, no jitter) to see whether the script depends on the schedule
-    let reference = run_child(&source, if threads == 2 { 4 } else { 2 }, None, &format!("{i}r"));
+    let reference = run_child(&source, if threads == 2 { 4 } else { 2 }, None, None, &format!("{i}r"));
     let rex = extract(&reference.log);
     let script_cmp = if ex.canon == rex.canon {
         S::k1("scriptcmp", S::atom("same"))
